@@ -2,6 +2,7 @@
 use crate::engine::PropertyMeta;
 
 pub mod status_common;
+pub mod execdiff;
 pub mod c01;
 pub mod c02;
 pub mod c03;
